@@ -62,6 +62,7 @@ class SerM:
     kind: str = "method"  # method | property | function
     undefined: bool = False  # return annotation Union[ret, UndefinedType]
     conv: Optional[Conv] = None  # serialized(conversion=...)
+    on_error: Optional[str] = None  # serialized(error_handler=...): key of HANDLERS ("none": error_handler=None)
 
 
 @dataclass(frozen=True)
@@ -74,6 +75,57 @@ class SObj(Obj):
     base: Optional[str] = None
     own: Tuple[str, ...] = ()
     redecorate: bool = True
+    generic: bool = False  # class name(typing.Generic[T]); `TVar()` stands for T in the field / return types
+
+
+@dataclass(frozen=True)
+class TVar(TD):
+    """the type variable of the enclosing generic class"""
+
+
+@dataclass(frozen=True)
+class Spec(TD):
+    """a specialised generic class: obj[arg]"""
+
+    obj: SObj
+    arg: TD
+
+
+def subst(td, arg: TD):
+    """the description with the type variable replaced by `arg`"""
+    if isinstance(td, TVar):
+        return arg
+    if isinstance(td, Spec):
+        return Spec(td.obj, subst(td.arg, arg))
+    if isinstance(td, SObj):
+        return dataclasses.replace(td, fields=tuple(subst(f, arg) for f in td.fields), serialized=tuple(subst(m, arg) for m in td.serialized), generic=False)
+    if isinstance(td, Fld):
+        return dataclasses.replace(td, t=subst(td.t, arg))
+    if isinstance(td, SerM):
+        return dataclasses.replace(td, ret=subst(td.ret, arg))
+    if isinstance(td, (Opt, Coll, Ann, NewT)):
+        return dataclasses.replace(td, t=subst(td.t, arg))
+    if isinstance(td, Uni):
+        return Uni(tuple(subst(a, arg) for a in td.alts))
+    if isinstance(td, Tup):
+        return Tup(tuple(subst(a, arg) for a in td.elts))
+    if isinstance(td, Mapp):
+        return dataclasses.replace(td, k=subst(td.k, arg), v=subst(td.v, arg))
+    return td
+
+
+def _has_tvar(td) -> bool:
+    if isinstance(td, (TVar, Spec)):
+        return True
+    if isinstance(td, (Opt, Coll, Ann, NewT)):
+        return _has_tvar(td.t)
+    if isinstance(td, Uni):
+        return any(map(_has_tvar, td.alts))
+    if isinstance(td, Tup):
+        return any(map(_has_tvar, td.elts))
+    if isinstance(td, Mapp):
+        return _has_tvar(td.k) or _has_tvar(td.v)
+    return False
 
 
 @dataclass(frozen=True)
@@ -100,7 +152,50 @@ BODIES: Dict[str, Callable[[Any], Any]] = {
     "undef": lambda s: _undefined(),
     "undef_if_a0": lambda s: _undefined() if s.a == 0 else s.a,
     "a_tuple": lambda s: (s.a, "t"),
+    "raise_if_a0": lambda s: _raise(ValueError("a is 0")) if s.a == 0 else s.a,
+    "content": lambda s: s.content,
+    "content_list": lambda s: [s.content],
+    "content_or_raise": lambda s: _raise(RuntimeError("fail")) if s.fail else s.content,
 }
+
+
+def _raise(e):
+    raise e
+
+
+# error handlers: name -> (value returned, description of the return type or None for UndefinedType)
+HANDLER_VALUES: Dict[str, Callable[[], Any]] = {"none": lambda: None, "minus1": lambda: -1, "text": lambda: "err", "undef": lambda: _undefined()}
+
+
+def _handler(name: str):
+    """the error_handler argument of @serialized (a typed function, or None for the default handler)"""
+    from apischema.types import UndefinedType
+
+    if name == "none":
+        return None
+    ret = {"minus1": int, "text": str, "undef": UndefinedType}[name]
+
+    def handler(error, obj, alias, _v=HANDLER_VALUES[name]):
+        return _v()
+
+    handler.__annotations__ = {"error": Exception, "obj": Any, "alias": str, "return": ret}
+    handler.__name__ = "handler_" + name
+    return handler
+
+
+def method_value(sm: SerM, obj):
+    """the value of a serialized method: an exception goes to the error handler when there is one"""
+    return method_value2(sm, obj)[0]
+
+
+def method_value2(sm: SerM, obj):
+    """(value, whether it comes from the error handler)"""
+    try:
+        return BODIES[sm.body](obj), False
+    except Exception:
+        if sm.on_error is None:
+            raise
+        return HANDLER_VALUES[sm.on_error](), True
 
 
 def _mk_obj(realm: Realm, name: str, *args):
@@ -127,8 +222,36 @@ def realize(td: TD, realm: Realm) -> Any:
     """the real typing object (classes with serialization-only features are built here first)"""
     _prebuild(td, realm)
     if isinstance(td, Dyn):
-        return M.realize(td.t, realm)
-    return M.realize(td, realm)
+        return realize(td.t, realm)
+    return _rtype(td, realm)
+
+
+def _tvar(realm: Realm):
+    if "T" not in realm.module.__dict__:
+        realm.module.T = typing.TypeVar("T")  # type: ignore
+    return realm.module.T
+
+
+def _rtype(td: TD, realm: Realm):
+    """M.realize extended with the type variable and the specialised generic classes"""
+    if not _has_tvar(td):
+        return M.realize(td, realm)
+    if isinstance(td, TVar):
+        return _tvar(realm)
+    if isinstance(td, Spec):
+        return _realize_sobj(td.obj, realm)[_rtype(td.arg, realm)]
+    if isinstance(td, Opt):
+        return Optional[_rtype(td.t, realm)]
+    if isinstance(td, Uni):
+        return typing.Union[tuple(_rtype(a, realm) for a in td.alts)]
+    if isinstance(td, Coll):
+        t = _rtype(td.t, realm)
+        return {"list": typing.List[t], "sequence": typing.Sequence[t], "collection": typing.Collection[t], "set": typing.Set[t], "frozenset": typing.FrozenSet[t], "tuplevar": typing.Tuple[t, ...]}[td.kind]
+    if isinstance(td, Tup):
+        return typing.Tuple[tuple(_rtype(e, realm) for e in td.elts)]
+    if isinstance(td, Mapp):
+        return typing.Dict[_rtype(td.k, realm), _rtype(td.v, realm)]
+    raise TypeError(f"type variable not supported in {td}")
 
 
 def conversion_object(c: Conv, realm: Realm):
@@ -148,6 +271,11 @@ def _prebuild(td: TD, realm: Realm):
         _prebuild(td.t, realm)
         _prebuild(td.conv.src, realm)
         _prebuild(td.conv.target, realm)
+    elif isinstance(td, TVar):
+        _tvar(realm)
+    elif isinstance(td, Spec):
+        _realize_sobj(td.obj, realm)
+        _prebuild(td.arg, realm)
     elif isinstance(td, SObj):
         _realize_sobj(td, realm)
     elif isinstance(td, Obj):
@@ -239,6 +367,9 @@ def _realize_sobj(td: SObj, realm: Realm):
         if td.base not in realm.built:
             raise TypeError(f"base {td.base} of {td.name} must be realised first")
         lines.append(f"class {td.name}({td.base}):")
+    elif td.generic:
+        _tvar(realm)
+        lines.append(f"class {td.name}(typing.Generic[T]):")
     else:
         lines.append(f"class {td.name}:")
     n_head = len(lines)
@@ -246,7 +377,7 @@ def _realize_sobj(td: SObj, realm: Realm):
         if td.base is not None and f.name not in td.own:
             continue
         _prebuild(f.t, realm)
-        tp = M.realize(f.t, realm)
+        tp = _rtype(f.t, realm)
         if getattr(f, "undefined", False):
             tp = typing.Union[tp, UndefinedType]
         kw: Dict[str, Any] = {}
@@ -270,7 +401,7 @@ def _realize_sobj(td: SObj, realm: Realm):
         if sm.name in inherited:
             continue  # inherited serialized methods are listed in the description, not re-declared
         _prebuild(sm.ret, realm)
-        ret = M.realize(sm.ret, realm)
+        ret = _rtype(sm.ret, realm)
         if sm.undefined:
             ret = typing.Union[ret, UndefinedType]
         ns[f"_r_{td.name}_{sm.name}"] = ret
@@ -280,6 +411,8 @@ def _realize_sobj(td: SObj, realm: Realm):
             skw["alias"] = sm.alias
         if sm.conv is not None:
             skw["conversion"] = conversion_object(sm.conv, realm)
+        if sm.on_error is not None:
+            skw["error_handler"] = _handler(sm.on_error)
         ns[f"_k_{td.name}_{sm.name}"] = skw
         deco = f"@_serialized(**_k_{td.name}_{sm.name})" if skw else "@_serialized"
         if sm.kind == "function":
@@ -347,8 +480,11 @@ def tracked(v) -> Optional[set]:
 
 
 def strip(td: TD, realm: Realm) -> TD:
-    while isinstance(td, (Ann, NewT, Ref)):
-        td = realm.descs[td.name] if isinstance(td, Ref) else td.t
+    while isinstance(td, (Ann, NewT, Ref, Spec)):
+        if isinstance(td, Spec):
+            td = subst(td.obj, td.arg)
+        else:
+            td = realm.descs[td.name] if isinstance(td, Ref) else td.t
     return td
 
 
@@ -357,6 +493,8 @@ def conforms(td: TD, v, realm: Realm) -> bool:
     U = _undefined()
     if isinstance(td, Dyn):
         return conforms(td.t, v, realm)
+    if isinstance(td, Spec):
+        return conforms(subst(td.obj, td.arg), v, realm)
     if isinstance(td, (Ann, NewT)):
         return conforms(td.t, v, realm)
     if isinstance(td, Ref):
@@ -458,6 +596,8 @@ class RefSer:
     def ser(self, td: TD, v, dyn: Optional[Conv] = None):
         if isinstance(td, Dyn):
             return self.ser(td.t, v, td.conv)
+        if isinstance(td, Spec):
+            return self.ser(subst(td.obj, td.arg), v, dyn)
         if dyn is not None and self._is_src(td, dyn):
             # a dynamic conversion is discarded once applied
             return self.ser(dyn.target, CONV_FUNCS[dyn.name](self.realm, v))
@@ -522,10 +662,11 @@ class RefSer:
             else:
                 res[M.ext_name(td, f, M.Opts(aliaser=o.aliaser))] = img
         for sm in getattr(td, "serialized", ()):
-            x = BODIES[sm.body](v)
+            x, handled = method_value2(sm, v)
             if x is _undefined() or (x is None and o.exclude_none):
                 continue
-            res[o.alias(sm.alias if sm.alias is not None else sm.name)] = self.ser(sm.ret, x, sm.conv)
+            # "the resulting serialization type will be a Union of the normal type and the error handling type"
+            res[o.alias(sm.alias if sm.alias is not None else sm.name)] = self.ser_any(x) if handled else self.ser(sm.ret, x, sm.conv)
         if typed_dict and o.additional_properties:
             names = {f.name for f in td.fields}
             for k, x in v.items():
@@ -541,7 +682,10 @@ class RefSer:
             return self.ser_any(v.value)
         cls = type(v)
         if self.realm.built.get(cls.__name__) is cls and cls.__name__ in self.realm.descs:
-            return self.ser(self.realm.descs[cls.__name__], v)
+            td = self.realm.descs[cls.__name__]
+            if getattr(td, "generic", False):
+                td = subst(td, AnyT())  # an unspecialised generic class: the type variable is Any
+            return self.ser(td, v)
         if isinstance(v, abc.Mapping):
             return {self.ser_any(k): self.ser_any(x) for k, x in v.items()}
         if isinstance(v, abc.Set):
@@ -639,9 +783,12 @@ def check_cons(td: TD, v, realm: Realm) -> bool:
     values are generated by the same rule)"""
     c: Optional[Cons] = None
     t = td
-    while isinstance(t, (Ann, NewT, Ref)):
+    while isinstance(t, (Ann, NewT, Ref, Spec)):
         if isinstance(t, Ref):
             t = realm.descs[t.name]
+            continue
+        if isinstance(t, Spec):
+            t = subst(t.obj, t.arg)
             continue
         c = M.merge_cons(c, t.cons)
         t = t.t
